@@ -276,7 +276,11 @@ func buildPool(s *srv.S, root string, seed int64, thorough bool, target int, rec
 					now += 2_000_000
 				}
 				// mandatory: every configuration on the asset with text and thumbnails, its three MPDs in turn
-				groups = append(groups, group{a, c, now, isT2 && k == 0 && (ci+int(seed))%3 == t2})
+				must := isT2 && k == 0 && (ci+int(seed))%3 == t2
+				if a.Name == gapAsset && k == 0 && (c.tag == "plain" || c.tag == "periods" || c.tag == "stpp") {
+					must = true // the asset whose metadata file is refused by the loading instance
+				}
+				groups = append(groups, group{a, c, now, must})
 			}
 		}
 		if isT2 {
